@@ -44,4 +44,8 @@ theorem complete_iterates_copy_eq : Gen.Cache.complete_iterates_copy = true := r
 /-- D18 repair: `async_remove_listener` catches the `KeyError` of `set.remove` -/
 theorem remove_listener_catches_keyerror_eq : Gen.Cache.remove_listener_catches_keyerror = true := rfl
 
+/-- the periodic purge sweeps the cache with, and tells the listeners, the one instant it read -/
+theorem purge_expire_now_eq (now : Int) : Gen.Cache.purge_expire_now now = now := rfl
+theorem purge_updates_now_eq (now : Int) : Gen.Cache.purge_updates_now now = now := rfl
+
 end Zc
